@@ -18,8 +18,9 @@ import (
 // simLoader is an in-memory loader whose invocations are fallible and counted together with the
 // spy callbacks, so "the k-th fallible invocation of the program" is well defined.
 type simLoader struct {
-	src map[string]string
-	sp  *Spies
+	src  map[string]string
+	sp   *Spies
+	down *bool // set while the injected outage lasts (read by the mirror)
 }
 
 func (l *simLoader) Load(name string) (string, error) {
@@ -28,10 +29,36 @@ func (l *simLoader) Load(name string) (string, error) {
 		return "", fmt.Errorf("%w: %s", twig.ErrTemplateNotFound, name)
 	}
 	if err := l.sp.hit("loader", name); err != nil {
+		if l.down != nil {
+			*l.down = true
+		}
 		return "", err
+	}
+	if l.down != nil {
+		*l.down = false
 	}
 	return s, nil
 }
+
+// mirrorLoader has the same templates; it is asked only when the first loader failed, and it fails with an
+// error of its own while the first loader's outage lasts.
+type mirrorLoader struct {
+	src  map[string]string
+	down *bool
+}
+
+func (l *mirrorLoader) Load(name string) (string, error) {
+	s, ok := l.src[name]
+	if !ok {
+		return "", fmt.Errorf("%w: %s", twig.ErrTemplateNotFound, name)
+	}
+	if *l.down {
+		return "", fmt.Errorf("mirror unreachable: %w", &InjectedFault{K: -2})
+	}
+	return s, nil
+}
+
+func (l *mirrorLoader) Exists(name string) bool { _, ok := l.src[name]; return ok }
 
 func (l *simLoader) Exists(name string) bool { _, ok := l.src[name]; return ok }
 
@@ -55,10 +82,11 @@ type c17Sc struct {
 	Pool    int      `json:"pool"`
 	Unknown []string `json:"unknown_variants"` // main-template sources with one name replaced by an unknown one
 	Debug   bool     `json:"debug"`
-	MaxK    int      `json:"max_k,omitempty"` // cap on enumerated fault positions (default 64)
-	Warm    bool     `json:"warm,omitempty"`  // the engine has rendered the program before; auto-reload is on and every template has changed on "disk" since (timestamp-aware loader), so the observed render re-reads what it had cached
-	FS      bool     `json:"fs,omitempty"`    // the templates live on the simulated disk behind the stock FileSystemLoader; a failing read is the loader's failure
-	Via     string   `json:"via,omitempty"`   // "" = Engine.Render, "renderto" = Engine.RenderTo, "load" = Load + Template.Render, "compiled" = the main template reaches the engine as compiled bytes
+	MaxK    int      `json:"max_k,omitempty"`  // cap on enumerated fault positions (default 64)
+	Warm    bool     `json:"warm,omitempty"`   // the engine has rendered the program before; auto-reload is on and every template has changed on "disk" since (timestamp-aware loader), so the observed render re-reads what it had cached
+	Mirror  bool     `json:"mirror,omitempty"` // a second loader with the same content whose calls fail exactly when the first one's do (one outage, two loaders)
+	FS      bool     `json:"fs,omitempty"`     // the templates live on the simulated disk behind the stock FileSystemLoader; a failing read is the loader's failure
+	Via     string   `json:"via,omitempty"`    // "" = Engine.Render, "renderto" = Engine.RenderTo, "load" = Load + Template.Render, "compiled" = the main template reaches the engine as compiled bytes
 }
 
 type propC17 struct{}
@@ -103,6 +131,7 @@ func (propC17) Gen(seed uint64, ex map[string]bool) interface{} {
 	sc := &c17Sc{Prog: genProgram(r, f), Pool: pick(r, []int{simrt.PoolLIFO, simrt.PoolFresh, simrt.PoolRandom}), Debug: r.P(15), Via: pick(r, []string{"", "", "", "renderto", "load", "compiled"})}
 	sc.Warm = r.P(20)
 	sc.FS = !sc.Warm && r.P(20)
+	sc.Mirror = !sc.Warm && !sc.FS && r.P(25)
 	if ex["tier:thorough"] {
 		sc.MaxK = 256
 	}
@@ -214,6 +243,10 @@ func c17Engine(sc *c17Sc, sp *Spies, mainSrc string) *twig.Engine {
 		tsl = &simTSLoader{simLoader: simLoader{src: src, sp: sp}, mt: 1_700_000_100}
 		e.RegisterLoader(tsl)
 		e.SetAutoReload(true)
+	} else if sc.Mirror {
+		down := false
+		e.RegisterLoader(&simLoader{src: src, sp: sp, down: &down})
+		e.RegisterLoader(&mirrorLoader{src: src, down: &down})
 	} else {
 		e.RegisterLoader(&simLoader{src: src, sp: sp})
 	}
